@@ -31,6 +31,9 @@ def mk_id(code, scheme):
         return code // 2 if code % 2 == 0 else str(code // 2)
     if scheme == "dstr":
         return str(code)
+    if scheme == "sepstr":    # strings with characters str.splitlines() / str.split() treat as separators, inside the name
+        names = ["p\u2028q", "a\x85b", "c\x1dd", "e\rf", "k\u2029l", "m\x1cn", "o\x1ep", "g\x0bh", "i\x0cj"]
+        return names[code] if code < len(names) else "n\x85%d" % code
     if scheme == "ustr":      # strings containing the separator of temporal_dag's occurrence names
         names = ["z_0", "a", "a_1", "b", "b_2", "c_x", "_d", "e_", "a_1_2", "f__g"]
         return names[code] if code < len(names) else "u_%d" % code
